@@ -15,7 +15,10 @@ Violation keys  (<family>:<clause>[:<input class>]):
   rcos:<clause>:<scalar|float-array|int-array>   clause in range, even, half-value, vanish, shape
   dec2bin:expansion|length|no-ValueError
   str2array:<clause>:<alphabet>    clause in value, kind, shape, dtype, ValueError-on-valid,
-                                   invalid-char-accepted, invalid-char-raises-<Type>
+                                   invalid-char-accepted[:<class>], invalid-char-raises-<Type>[:<class>]
+                                   (class of the inserted / substituted character: none for printable ASCII, control,
+                                   unicode-decimal-digit, unicode-numeric, look-alike, format-char, unicode-letter,
+                                   unicode-punctuation, unicode-symbol, combining-mark)
   si:<format|roundtrip|mantissa-range>:<femto..tera>
 """
 from __future__ import annotations
@@ -793,26 +796,173 @@ def _bits_one(A, alph, text, exp):
     A.stat('texts')
 
 
-BAD_BASES = ['101', '1 0 1', '1 -2 10', '10;01', '0.5,-0.25; 3.0,10.125', '1+2j -1.5-0.5i', '2i, 3; 1+2j, 3']
+BAD_BASES = ['101', '1 0 1', '1 -2 10', '10;01', '0.5,-0.25; 3.0,10.125', '1+2j -1.5-0.5i', '2i, 3; 1+2j, 3', '']
+# '' : the text that consists of the invalid character alone
+
+
+# --------------------------------------------------------------------- the "any other character" alphabets
+# Grammar of the statement: digits 0-9, comma / space between elements, ';' between rows, i or j, and the sign and dot
+# of the fixed-point form.  WHITESPACE: the statement says "comma/space separated", the library documents "comma or
+# whitespace" - U+0020 is a separator for certain, for every other white-space character (tab, newline, U+001C..1F,
+# NEL, NBSP, the U+2000.. spaces, line/paragraph separator, ideographic space: everything `str.isspace` or the regex
+# class \s knows) the statement does not say whether it is a separator or "another character", so such characters are
+# NOT judged (they are left out of the alphabets; 28 characters).  Everything else that is not in GRAMMAR must raise
+# ValueError, whatever Unicode thinks of it (decimal digit, minus sign, full-width comma, invisible format character).
+def _is_ws(ch):
+    return ch.isspace() or re.match(r'\s', ch) is not None
+
+
+# look-alikes that Unicode normalisation does not map onto the grammar character: minus/plus signs, soft hyphen, middle
+# dot, Arabic decimal/thousands separators and comma/semicolon, ideographic comma/full stop, low-9 quote, reversed
+# semicolon, dotless / Cyrillic / Greek i and j, Cyrillic and Greek O, palochka, divides
+_LOOKALIKE = {0x2212: '-', 0x207B: '-', 0x208B: '-', 0x2796: '-', 0x02D7: '-', 0x00AD: '-', 0x2795: '+', 0x00B7: '.',
+              0x066B: '.', 0x066C: ',', 0x060C: ',', 0x3001: ',', 0x201A: ',', 0x061B: ';', 0x204F: ';', 0x3002: '.',
+              0x0131: 'i', 0x0237: 'j', 0x0456: 'i', 0x0458: 'j', 0x03B9: 'i', 0x03F3: 'j',
+              0x041E: '0', 0x039F: '0', 0x043E: '0', 0x03BF: '0', 0x04CF: '1', 0x04C0: '1', 0x2223: '1'}
+
+
+def char_class(ch):
+    """input class of an out-of-grammar character (used in the violation key)"""
+    import unicodedata as ud
+    o = ord(ch)
+    cat = ud.category(ch)
+    if 0x21 <= o < 0x7f:
+        return 'ascii'
+    if cat == 'Cc':
+        return 'control'
+    if cat == 'Nd':
+        return 'unicode-decimal-digit'
+    if cat in ('Nl', 'No') or ch.isnumeric():
+        return 'unicode-numeric'
+    if lookalike_of(ch):
+        return 'look-alike'
+    if cat == 'Cf':
+        return 'format-char'
+    return {'L': 'unicode-letter', 'P': 'unicode-punctuation', 'S': 'unicode-symbol', 'M': 'combining-mark'}.get(cat[0], 'other-' + cat)
+
+
+def lookalike_of(ch):
+    """the grammar character(s) `ch` stands for under Unicode compatibility normalisation / digit value / the explicit
+    table of minus, plus, dot, comma, semicolon, i, j, 0, 1 look-alikes; '' if none"""
+    import unicodedata as ud
+    if ch in GRAMMAR:
+        return ''
+    if ord(ch) in _LOOKALIKE:
+        return _LOOKALIKE[ord(ch)]
+    if ud.category(ch) == 'Pd':
+        return '-'
+    d = ud.digit(ch, None)
+    if d is not None:
+        return str(d)
+    n = ud.normalize('NFKC', ch)
+    if n and set(n) <= GRAMMAR and n.strip():
+        return n
+    return ''
+
+
+_BLOCKS = [(0x00, 0x20), (0x7F, 0x100), (0x370, 0x530), (0x2000, 0x20A0), (0x2100, 0x2150), (0xFE50, 0xFE70), (0xFF00, 0xFFF0)]
+
+
+def _candidate(ch, cat):
+    """assigned, not private use / surrogate, not white space, not a grammar character"""
+    return cat not in ('Cn', 'Co', 'Cs') and ch not in GRAMMAR and not _is_ws(ch)
+
+
+_ALPH_DOC = """the invalid-character alphabets.
+    'ascii': the 77 printable ASCII characters outside the grammar.
+    'uni' (quick and thorough): every non-white-space control character below U+00A0; EVERY character of the whole Unicode
+       range that is numeric (categories Nd, Nl, No or str.isnumeric: 1902 characters, 670 decimal digits of all scripts
+       among them) or that stands for a grammar character (`lookalike_of`: full-width / small / super- and subscript /
+       mathematical forms of digits , ; . + - i j, every dash, the explicit table); every format character (Cf),
+       currency sign (Sc) and enclosing mark (Me); the whole blocks Latin-1 supplement, Greek, Cyrillic, General
+       Punctuation, Super/Subscripts, Letterlike symbols, Small Form Variants, Halfwidth/Fullwidth forms; and, as a
+       spread over all scripts, the first character of every 256-code-point row of the BMP and of every
+       4096-code-point row of the other planes.
+    'uni2' (thorough only): every other BMP character of the categories Sm, Po, Ps, Pe, Pi, Pf, Pc, Sk, Mn.
+    'all' (thorough only, used at two positions only): every assigned, non-surrogate, non-private-use code point.
+    White-space characters (see above) and grammar characters are never members."""
+
+_ALPH_CACHE = {}
+
+
+def all_range(lo, hi):
+    """members of 'all' with lo <= code point <= hi (cheap: computed in the worker from the range in the case)"""
+    import unicodedata as ud
+    return [chr(c) for c in range(lo, hi + 1) if _candidate(chr(c), ud.category(chr(c)))]
+
+
+def bad_alphabet(name):
+    """one linear pass over the code space, in the coordinating process only: the cases carry the characters themselves
+    ('ascii', 'uni', 'uni2') or a code point range ('all')"""
+    if name in _ALPH_CACHE:
+        return _ALPH_CACHE[name]
+    import unicodedata as ud
+    if name == 'ascii':
+        out = list(BADCHARS)
+    elif name == 'all':
+        out = all_range(0, 0x10FFFF)
+    else:
+        uni, uni2, rows = [], [], set()
+        for ch in bad_alphabet('all'):
+            o = ord(ch)
+            row = o >> 8 if o < 0x10000 else 0x1000 + (o >> 12)
+            first = row not in rows
+            rows.add(row)
+            if 0x21 <= o < 0x7f:
+                continue
+            cat = ud.category(ch)
+            if (cat in ('Nd', 'Nl', 'No', 'Pd', 'Cf', 'Sc', 'Me') or (first and o >= 0x100) or any(lo <= o < hi for lo, hi in _BLOCKS)
+                    or ch.isnumeric() or lookalike_of(ch)):
+                uni.append(ch)
+            elif 0x80 <= o < 0x10000 and cat in ('Sm', 'Po', 'Ps', 'Pe', 'Pi', 'Pf', 'Pc', 'Sk', 'Mn'):
+                uni2.append(ch)
+        _ALPH_CACHE['uni'], _ALPH_CACHE['uni2'] = uni, uni2
+        return _ALPH_CACHE[name]
+    _ALPH_CACHE[name] = out
+    return out
+
+
+def _bad_one(A, text, ch, how):
+    from opticomlib.utils import str2array
+    cls = char_class(ch)
+    sfx = '' if cls == 'ascii' else ':' + cls
+    shown = f'{ch!r} (U+{ord(ch):04X})'
+    for dt in DTYPES:
+        st, a = call(str2array, text) if dt is None else call(str2array, text, dtype=dt)
+        A.item(('bad', text, DTNAME[dt]), ('exc', type(a).__name__) if st == 'exc' else arr_key(a))
+        where = f'str2array({text!r}' + ('' if dt is None else f', dtype={DTNAME[dt]}') + ')'
+        if st == 'ok':
+            A.v(f'str2array:invalid-char-accepted{sfx}', f'{where} returned {np.asarray(a).tolist()!r}; character {shown} ({how}) must raise ValueError')
+        elif not isinstance(a, ValueError):
+            A.v(f'str2array:invalid-char-raises-{type(a).__name__}{sfx}', f'{where} raised {a!r}; character {shown} ({how}): ValueError required')
 
 
 def fam_bad(case):
-    """every printable ASCII character outside the grammar inserted once at every position -> ValueError"""
-    from opticomlib.utils import str2array
-    _, bi, clo, chi = case
+    """('bad', alphabet, base index, chars, mode): every character of the string `chars` (alphabet 'all': of the code
+    point range chars = (lo, hi)), all of them outside the grammar and not white space,
+    mode 'insert': inserted once at every position of the base text (for the base '' the character alone);
+    mode 'ends'  : inserted at the middle position only and, for the base '', alone (alphabet 'all');
+    mode 'subst' : a look-alike of a grammar character written INSTEAD of that character, at every occurrence, one at a
+                   time and all occurrences at once.
+    Every dtype argument each time -> ValueError"""
+    _, alph, bi, chars, mode = case
     base = BAD_BASES[bi]
     A = Acc('str2array')
-    for ch in BADCHARS[clo:chi]:
-        for pos in range(len(base) + 1):
-            text = base[:pos] + ch + base[pos:]
-            for dt in DTYPES:
-                st, a = call(str2array, text) if dt is None else call(str2array, text, dtype=dt)
-                A.item(('bad', text, DTNAME[dt]), ('exc', type(a).__name__) if st == 'exc' else arr_key(a))
-                where = f'str2array({text!r}' + ('' if dt is None else f', dtype={DTNAME[dt]}') + ')'
-                if st == 'ok':
-                    A.v('str2array:invalid-char-accepted', f'{where} returned {np.asarray(a).tolist()!r}; character {ch!r} must raise ValueError')
-                elif not isinstance(a, ValueError):
-                    A.v(f'str2array:invalid-char-raises-{type(a).__name__}', f'{where} raised {a!r}; ValueError required')
+    for ch in (all_range(*chars) if alph == 'all' else chars):
+        if mode == 'subst':
+            g = lookalike_of(ch)
+            if len(g) != 1 or g not in base:
+                continue
+            occ = [i for i, b in enumerate(base) if b == g]
+            texts = [base[:i] + ch + base[i + 1:] for i in occ]
+            if len(occ) > 1:
+                texts.append(base.replace(g, ch))
+            for text in texts:
+                _bad_one(A, text, ch, f'written for {g!r}')
+            continue
+        positions = range(len(base) + 1) if mode == 'insert' else [len(base) // 2]
+        for pos in positions:
+            _bad_one(A, base[:pos] + ch + base[pos:], ch, f'inserted at position {pos} of {base!r}')
     return A.done()
 
 
@@ -909,17 +1059,26 @@ def run(ctx):
              'dec2bin: every (v,d), 1<=d<=16, 0<=v<2^d, plus 2^d and 2^d+1. str2array: every r x c array (r<=2,c<=3) over 4-value '
              'alphabets per dtype, deviation lattices (<=2 entries) around two baselines for shapes up to 3x6, every element/row '
              'separator style, both imaginary units, every explicit dtype; every 0/1 string up to the stated length in every '
-             'tokenisation; every out-of-grammar printable ASCII character at every position of 7 base texts. '
+             'tokenisation; every out-of-grammar printable ASCII character and 3445 non-ASCII / control characters (every Unicode '
+             'numeric character incl. the 670 decimal digits of all scripts, every compatibility form and look-alike of a grammar '
+             'character, dashes, format characters, whole Latin-1/Greek/Cyrillic/punctuation/full-width blocks, one character per '
+             '256-code-point row) at every position of 7 base texts and alone, and written instead of the grammar character they '
+             'resemble; thorough: 2488 more symbols/punctuation/marks at every position and every assigned code point at one position '
+             'of 2 base texts and alone; white-space characters other than U+0020 are not judged. '
              'si: 30 exponent groups x (6 mantissas as decimal literal and as product, decade constants and both float '
              'neighbours, integers) x k in {0,1,3} x units {s,Hz}')
     ctx.assume('numpy/scipy reference functions (log10 rounding, scipy.stats.norm.sf, quad) are correct; python Fraction arithmetic is exact')
     ctx.assume('continuum quantifiers (all positive reals, all real dB values) are covered at the listed grid points only')
     ctx.assume('where the statement is silent the oracle is silent: lossy explicit casts (complex->real, fractional->int, ->bool) are '
                'checked for dtype and shape only; ragged bit patterns, leading-zero tokens under a numeric dtype, x < 1e-15 and '
-               'non-(int,float) scalar types are not judged; both u and the Greek mu are accepted for micro')
+               'non-(int,float) scalar types are not judged; both u and the Greek mu are accepted for micro; str2array: the statement '
+               'names comma and space as separators, the library documents "whitespace": white-space characters other than U+0020 '
+               '(tab, newline, U+001C-1F, NEL, NBSP, U+1680, U+2000-200A, U+2028/2029/202F/205F/3000) are neither required to '
+               'separate nor required to raise and are left out of the invalid-character alphabets')
 
     ctx.sample({'family': 'si', 'item': "si(2.5e-07, 's', k=1) -> '250.0 ns': 250.0 x 1e-9 == x within 0.05e-9; x/1e-9 in [1,1000)"})
     ctx.sample({'family': 'str2array', 'item': "str2array('1+2i, -1.5-0.5i; 2i, 3', dtype=None) == [[1+2j,-1.5-0.5j],[2j,3]] (complex)"})
+    ctx.sample({'family': 'str2array', 'item': "str2array('1 -2 1\\u0663 0', dtype=float) raises ValueError (ARABIC-INDIC DIGIT THREE is not a grammar character)"})
     ctx.sample({'family': 'dec2bin', 'item': 'dec2bin(37, 9) == [0,0,0,1,0,0,1,0,1]; dec2bin(512, 9) raises ValueError'})
     ctx.sample({'family': 'rcos', 'item': 'rcos(np.array([-2,-1,0,1,2]), alpha=0.5, T=0.5)[3] == 1/2'})
 
@@ -992,8 +1151,18 @@ def run(ctx):
     bits = [('bits', L, first, 1) for L in range(1, Lmax1 + 1) for first in prefixes(L)] + \
            [('bits', L, first, 2) for L in range(1, Lmax2 + 1) for first in '01']
     part('str2array.bit-patterns', bits)
-    nb = len(BADCHARS)
-    part('str2array.invalid-characters', [('bad', bi, lo, min(lo + 20, nb)) for bi in range(len(BAD_BASES)) for lo in range(0, nb, 20)])
+    def bad_cases(alph, mode, step, bases=None):
+        al = bad_alphabet(alph)
+        chunks = [al[lo:lo + step] for lo in range(0, len(al), step)]
+        chunks = [(ord(c[0]), ord(c[-1])) if alph == 'all' else ''.join(c) for c in chunks]
+        return [('bad', alph, bi, c, mode) for bi in (range(len(BAD_BASES)) if bases is None else bases) for c in chunks]
+    nbases = len(BAD_BASES)
+    part('str2array.invalid-characters', bad_cases('ascii', 'insert', 20))
+    part('str2array.invalid-characters.unicode', bad_cases('uni', 'insert', 400))
+    part('str2array.invalid-characters.look-alike-substitution', bad_cases('uni', 'subst', 4000, bases=range(nbases - 1)))
+    if not quick:
+        part('str2array.invalid-characters.unicode-more', bad_cases('uni2', 'insert', 400))
+        part('str2array.invalid-characters.every-code-point', bad_cases('all', 'ends', 8000, bases=[2, 5, nbases - 1]))
 
     # -- repeated calls return fresh results
     part('repeated-calls', [('fresh', i) for i in range(len(FRESH_TEXTS))])
@@ -1006,6 +1175,8 @@ def run(ctx):
     ctx.extra['bounds'] = {'dB': '[-300,300] step 0.5', 'decades': '1e-15..1e14 x 6 mantissas', 'dec2bin_digits': 16,
                            'str2array_full_shape': '2x3', 'str2array_deviation_shape': '3x6', 'str2array_deviations': kdev,
                            'bit_string_length_1row': Lmax1, 'bit_string_length_2rows': Lmax2,
-                           'invalid_characters': len(BADCHARS), 'si_exponents': '[-15,14] + 1e15',
+                           'invalid_characters': len(BADCHARS),
+                           'invalid_characters_unicode': len(bad_alphabet('uni')),
+                           'invalid_characters_thorough': None if quick else len(bad_alphabet('uni2')) + len(bad_alphabet('all')), 'si_exponents': '[-15,14] + 1e15',
                            'rcos_alpha': alphas, 'rcos_T': Ts}
     print(f'[C19] items={ctx.evaluations} distinct_nontrivial={len(ctx.nt_tags)} distinct_outcomes={len(ctx.outcomes)}', flush=True)
